@@ -193,6 +193,37 @@ class _:
                 raise Fail("from_vector(tovec)-not-exact", f"{case} include_weights={inc}")
             if not np.array_equal(K2.tovec(inc), v):
                 raise Fail("tovec(from_vector)-not-exact", f"{case}")
+        # the vector form must not depend on how the factor matrices happen to be laid out in memory:
+        # tensors reached through other operations (which may leave C-ordered factors) and factors
+        # assigned by the user
+        def variants():
+            for nm, op in (("normalize(0)", lambda k: k.normalize(weight_factor=0)), ("normalize(all)", lambda k: k.normalize(weight_factor="all")),
+                           ("normalize", lambda k: k.normalize()), ("arrange", lambda k: k.arrange()), ("redistribute", lambda k: k.redistribute(N - 1)),
+                           ("fixsigns", lambda k: k.fixsigns())):
+                k = ttb.ktensor([u.copy() for u in U], w.copy())
+                try:
+                    op(k)
+                except (AssertionError, ValueError, ZeroDivisionError):
+                    continue
+                yield nm, k
+            k = ttb.ktensor([u.copy() for u in U], w.copy())
+            k.factor_matrices[0] = np.ascontiguousarray(k.factor_matrices[0])
+            yield "C-ordered-factor", k
+            k = ttb.ktensor([u.copy() for u in U], w.copy())
+            k.factor_matrices[N - 1] = np.array(k.factor_matrices[N - 1][::-1, :][::-1, :])
+            yield "strided-factor", k
+        for nm, Kh in variants():
+            fm = [np.array(f, dtype=float) for f in Kh.factor_matrices]
+            ww = np.array(Kh.weights, dtype=float)
+            if not np.all(np.isfinite(ww)) or any(not np.all(np.isfinite(f)) for f in fm):
+                continue
+            v = Kh.tovec(include_weights=True)
+            exp = np.concatenate([ww] + [f.reshape(-1, order="F") for f in fm])
+            if v.shape != exp.shape or not np.array_equal(v, exp):
+                raise Fail(f"tovec-is-not-the-column-stacking:{nm}", f"{case}")
+            K2 = ttb.ktensor.from_vector(v.copy(), tuple(case["shape"]), True)
+            if not np.array_equal(K2.weights, ww) or any(not np.array_equal(a, b) for a, b in zip(K2.factor_matrices, fm)):
+                raise Fail(f"from_vector(tovec)-not-exact:{nm}", f"{case}")
         # update: all modes + weights from the vector of another tensor
         rs = np.random.RandomState(case["seed"] + 1)
         V = [rs.randint(-3, 4, size=u.shape).astype(float) for u in U]
